@@ -16,6 +16,7 @@ import (
 	"sync"
 	"time"
 
+	"github.com/whatap/golib/lang/pack"
 	wnet "github.com/whatap/golib/net"
 	"github.com/whatap/golib/net/oneway"
 
@@ -267,4 +268,131 @@ func runFault(c *vlib.Ctx, caseID string, i int, r *vlib.Rand) {
 		c.Sample(map[string]interface{}{"section": "fault", "scenario": label, "connections": len(conns), "cuts_executed": cuts,
 			"frames_matched": st.matched, "partial_tails": st.partialTails, "send_errors": sendErrors})
 	}
+}
+
+// ---- unencodable packs between good ones -------------------------------------------------------------
+//
+// A pack whose Write panics half-way (an event pack with a non-text attribute, a hit map with
+// truncated cell slices, a tag-count / log-sink pack without a tag map) is handed to the client
+// between good packs. Whatever the client does with it (the panic reaches the caller), not
+// one byte of it may reach the wire: the stream stays a sequence of whole reference frames of
+// the good packs, each exactly once.
+
+func badPack(r *vlib.Rand) (pack.Pack, string) {
+	switch r.Intn(4) {
+	case 0:
+		ref := genEvent(r)
+		g := toEvent(ref).(*pack.EventPack)
+		g.Attr.Put("retry", 3)
+		return g, "EventPack with a non-text attribute"
+	case 1:
+		ref := genHitMap(r)
+		g := toHitMap(ref).(*pack.HitMapPack1)
+		g.Hit = g.Hit[:r.Intn(100)]
+		return g, "HitMapPack1 with a truncated Hit slice"
+	case 2:
+		g := &pack.TagCountPack{Category: txt(r)}
+		g.Pcode, g.Time = r.I64(), r.I64()
+		return g, "zero-value TagCountPack (no tag map)"
+	default:
+		ref := genLogSink(r)
+		g := toLogSink(ref).(*pack.LogSinkPack)
+		g.Tags = nil
+		return g, "LogSinkPack without a tag map"
+	}
+}
+
+func runUnencodable(c *vlib.Ctx, caseID string, i int, r *vlib.Rand) {
+	queued := r.Chance(1, 3)
+	total := r.Range(8, 40)
+	defLic := genLicense(r)
+	idBase := (r.I64() &^ 0xFFFFF) & 0x7FFFFFFFFFFFFFFF
+	pr, err := newPeer(nil, 0)
+	if err != nil {
+		c.Inconclusive(caseID, "cannot listen on loopback: "+err.Error())
+		c.Eval(-1)
+		return
+	}
+	copts := []oneway.OneWayTcpClientOption{oneway.WithServers([]string{pr.addr}), oneway.WithLicense(defLic), oneway.WithPcode(r.I64()), oneway.WithOid(r.I32())}
+	if queued {
+		copts = append(copts, oneway.WithUseQueue())
+	}
+	cl := oneway.NewOneWayTcpClientVerif(copts...)
+	var all []*sentPack
+	var story []string
+	nBad, nPanics, errs := 0, 0, 0
+	drain := func() {
+		for k := 0; k < 50 && cl.Queue.Size() > 0; k++ {
+			var e error
+			if p := vlib.Catch(func() { e = cl.SendAndClear() }); p != nil {
+				nPanics++
+			} else if e != nil {
+				errs++
+			}
+		}
+	}
+	for n := 0; n < total; n++ {
+		if n > 0 && r.Chance(1, 4) {
+			p, what := badPack(r)
+			nBad++
+			story = append(story, "BAD: "+what)
+			var e error
+			if pn := vlib.Catch(func() { e = cl.Send(p) }); pn != nil {
+				nPanics++
+			}
+			_ = e // an error for a pack that cannot be encoded is as good as a panic
+		} else {
+			ref, mk := genAnyPack(r, r.Intn(8), 0)
+			ref.Hdr().Time = idBase | int64(n)
+			x := newExpectation(ref, "/after-unencodable")
+			sp := &sentPack{id: ref.Hdr().Time, x: x, lic: defLic,
+				frame: refcodec.Frame(10, 0, ref.Hdr().Pcode, refcodec.Hash64([]byte(defLic)), x.payload),
+				who:   fmt.Sprintf("%s (#%d)", x.name, n)}
+			all = append(all, sp)
+			story = append(story, sp.who)
+			var e error
+			if pn := vlib.Catch(func() { e = cl.Send(mk()) }); pn != nil || e != nil {
+				errs++
+				sp.errText = fmt.Sprint(pn, e)
+			} else {
+				sp.accepted = true
+			}
+		}
+		if queued && r.Chance(1, 3) {
+			drain()
+		}
+	}
+	if queued {
+		drain()
+		// a drain that ended in the panic of the last queued pack has not flushed what it had
+		// written before: one more call (nothing queued) flushes
+		var e error
+		if p := vlib.Catch(func() { e = cl.SendAndClear() }); p != nil || e != nil {
+			errs++
+		}
+	}
+	cl.VerifCancel()
+	cl.VerifCloseLocked()
+	conns, ok := pr.finish()
+	if !ok {
+		pr.abandon()
+	}
+	st := checkStreams(c, conns, newSentIndex(all), streamOpts{
+		label:       fmt.Sprintf("%s queue=%v", caseID, queued),
+		sfx:         func(int) string { return "/after-unencodable" },
+		tailAllowed: func(pc *peerConn) bool { return errs > 0 || !ok },
+		exactlyOnce: true,
+		wantAll:     errs == 0 && ok,
+		extra:       map[string]interface{}{"handed_over": story, "default_license": vlib.Hex([]byte(defLic))},
+	})
+	if st.failures == 0 && (!ok || errs > 0) {
+		c.Inconclusive(caseID, fmt.Sprintf("watchdog fired (%v) or a good pack failed on a healthy loopback connection (%d)", !ok, errs))
+		c.Eval(-1)
+		return
+	}
+	c.Count("unencodable_scenarios", 1)
+	c.Count("unencodable_packs_handed_over", int64(nBad))
+	c.Count("unencodable_panics_reaching_the_caller", int64(nPanics))
+	c.Count("unencodable_good_frames_matched", st.matched)
+	c.DistinctStr(fmt.Sprintf("unencodable %v %d %x", queued, total, idBase))
 }
